@@ -13,14 +13,25 @@ use std::io::Write;
 pub struct Out {
     pub w: Box<dyn Write>,
     pub lines: u64,
+    /// when set, lines are held in memory instead of being written (twin deployments)
+    pub hold: Option<Vec<String>>,
 }
 impl Out {
+    pub fn buffer() -> Out {
+        Out { w: Box::new(std::io::sink()), lines: 0, hold: Some(vec![]) }
+    }
     pub fn line(&mut self, lhs: &str, rhs: &str) {
-        writeln!(self.w, "{} => {}", lhs, rhs).unwrap();
+        self.raw(&format!("{} => {}", lhs, rhs));
         self.lines += 1;
     }
     pub fn raw(&mut self, l: &str) {
-        writeln!(self.w, "{}", l).unwrap();
+        match self.hold.as_mut() {
+            Some(h) => h.push(l.to_string()),
+            None => writeln!(self.w, "{}", l).unwrap(),
+        }
+    }
+    pub fn flush_into(self, o: &mut Out) {
+        for l in self.hold.unwrap_or_default() { o.raw(&l); }
     }
 }
 
@@ -68,7 +79,7 @@ fn main() {
         Some(p) => Box::new(std::io::BufWriter::new(std::fs::File::create(p).unwrap())),
         None => Box::new(std::io::BufWriter::new(std::io::stdout())),
     };
-    let mut o = Out { w, lines: 0 };
+    let mut o = Out { w, lines: 0, hold: None };
     let ok = streams::run(&stream, seed, cases, replay.as_deref(), &mut o);
     o.w.flush().unwrap();
     if !ok {
